@@ -243,12 +243,13 @@ def n4_quotient(ctx) -> None:
     else:
         ctx.violation("N4", c1, "Quotient._c must run over compositions(self._parent_shift, self.number_of_children - 1, minima without idx, maxima without idx); found "
                       f"({', '.join(norm(D.expanded(g, x))[:50] for x in c1.args)})")
-    others = PT.find_all(g, f"_M_o = {ch2}[:self.idx] + {ch2}[self.idx + 1:]")
     ok = False
     aug = lp = None
-    if others:
-        o = others[0][1]["_M_o"]
-        lp, aug, ok = _combination_acc(g, o, "self._other_new_param", ast.Add)
+    want_o = f"{ch2}[:self.idx] + {ch2}[self.idx + 1:]"
+    for lp0 in walk_local(g):
+        if isinstance(lp0, ast.For) and isinstance(lp0.iter, ast.Call) and norm(lp0.iter.func).endswith("params_value_pairs_combinations") and len(lp0.iter.args) == 2 \
+                and norm(D.expanded(g, lp0.iter.args[1])) == want_o:
+            lp, aug, ok = _combination_acc(g, norm(lp0.iter.args[1]), "self._other_new_param", ast.Add)
     if ok:
         ctx.ok("N4", "quotient C: products of the other factors' values are added under _other_new_param")
     else:
@@ -280,9 +281,8 @@ def n4_quotient(ctx) -> None:
     ctx.analysed(gt)
     k = gt.node
     pt, sub, n3 = _params(k)
-    lst = PT.find_all(k, f"_M_cs = {sub}[1:self.idx + 1] + ({pt},) + {sub}[self.idx + 1:]")
     call = [x for x in walk_local(k) if isinstance(x, ast.Call) and norm(x.func) == "self._b"]
-    if lst and call and [norm(x) for x in call[0].args] == [n3, f"{sub}[0]", lst[0][1]["_M_cs"]]:
+    if call and [norm(D.expanded(k, x)) for x in call[0].args] == [n3, f"{sub}[0]", f"{sub}[1:self.idx + 1] + ({pt},) + {sub}[self.idx + 1:]"]:
         ctx.ok("N4", "quotient: the product's own terms are the first provider, the rule's own terms stand at the counted position among the factors")
     else:
         ctx.violation("N4", k, f"Quotient.get_terms must call self._b({n3}, {sub}[0], {sub}[1:self.idx + 1] + ({pt},) + {sub}[self.idx + 1:])", construct="Quotient.get_terms providers")
